@@ -251,6 +251,12 @@ class Laws:
             if lv[k].size > 0:
                 # other dtype AND a value that a cast to the first dtype would destroy (x + 0.5, or 2 for a bool)
                 variants.append(("dtype_and_fraction", _mutate_leaf(tree, k, "dtype_fraction", rng), False))
+        if _has_multi_dict(tree):
+            # dicts are the same structure whatever order their keys were inserted in (one built by a constructor, the other
+            # restored from a checkpoint): the leaves that are paired are the ones under the same key
+            variants.append(("identical_other_key_order", _reorder(_copy(tree)), True))
+            if len(variants) > 1 and variants[1][0] == "one_element":
+                variants.append(("one_element_other_key_order", _reorder(variants[1][1]), False))
         self.ev("eq_reflexive")
         try:
             if pt.is_equal_pytree(tree, tree) is not True:
@@ -300,6 +306,25 @@ def _copy(tree):
     import jax
 
     return jax.tree_util.tree_map(lambda x: np.array(x, copy=True), tree)
+
+
+def _reorder(tree):
+    """The same nest with every dict built in the reverse insertion order (same keys, same leaves: the same structure)."""
+    if isinstance(tree, dict):
+        return {k: _reorder(tree[k]) for k in reversed(list(tree))}
+    if isinstance(tree, tuple) and hasattr(tree, "_fields"):
+        return type(tree)(*[_reorder(x) for x in tree])
+    if isinstance(tree, (list, tuple)):
+        return type(tree)(_reorder(x) for x in tree)
+    return tree
+
+
+def _has_multi_dict(tree) -> bool:
+    if isinstance(tree, dict):
+        return len(tree) > 1 or any(_has_multi_dict(v) for v in tree.values())
+    if isinstance(tree, (list, tuple)):
+        return any(_has_multi_dict(v) for v in tree)
+    return False
 
 
 def _perturb(rng, tree):
@@ -367,6 +392,16 @@ def run_shard(shard: Dict[str, Any], rep: Report) -> None:
 
             rep.digests.add(digest(trees[0]))
             L.stack_slice_add(trees, desc)
+            if n % 3 == 0:
+                # trees that share leaf *objects*: the same tree b times, and trees derived from the first one by replacing
+                # some of its leaves (what state.replace(...) gives: the untouched fields are the very same arrays)
+                L.stack_slice_add([trees[0]] * b, dict(desc, sharing="same tree repeated"))
+                rep.count("stack_same_tree_repeated")
+                keep = [bool(rng.random() < 0.5) for _ in jax.tree_util.tree_leaves(trees[0])]
+                it = [iter(keep) for _ in trees]
+                derived = [trees[0]] + [jax.tree_util.tree_map(lambda x0, x, it_=it_: x0 if next(it_) else x, trees[0], t) for t, it_ in zip(trees[1:], it[1:])]
+                L.stack_slice_add(derived, dict(desc, sharing="some leaves are one object in all trees"))
+                rep.count("stack_shared_leaf_objects")
             L.equality(build(rng, struct), desc)
             if n % 2 == 0:
                 L.equality(build(rng, struct), desc, as_jax=True)
@@ -397,6 +432,16 @@ def run_shard(shard: Dict[str, Any], rep: Report) -> None:
             rep.digests.add(name + digest(states[0][0]))
             L.stack_slice_add([x[0] for x in states], {"env": name, "tree": "State", "batch": b})
             L.stack_slice_add([x[1] for x in states], {"env": name, "tree": "TimeStep", "batch": b})
+            # one real state repeated, and real states derived from the first one with `replace` (constant fields shared)
+            L.stack_slice_add([states[0][0]] * b, {"env": name, "tree": "State", "batch": b, "sharing": "same state repeated"})
+            fl0, td = jax.tree_util.tree_flatten(states[0][0])
+            if len(fl0) > 1:
+                der = [states[0][0]]
+                for s_, _t in states[1:]:
+                    fl = jax.tree_util.tree_leaves(s_)
+                    der.append(jax.tree_util.tree_unflatten(td, [a if k % 2 == 0 else b_ for k, (a, b_) in enumerate(zip(fl0, fl))]))
+                L.stack_slice_add(der, {"env": name, "tree": "State", "batch": b, "sharing": "every other field is one object in all states"})
+            rep.count("stack_shared_leaf_objects", 2)
             rep.env_count(name, "real_state_batches")
             rep.count("real_state_batches")
             E.cleanup()
@@ -413,7 +458,8 @@ def run_shard(shard: Dict[str, Any], rep: Report) -> None:
 def floors(tier: str, counters: Dict[str, int], per_env: Dict[str, Dict[str, int]]) -> List[str]:
     missed = []
     need = {"slice_of_transpose": 1000, "add_element": 300, "eq_matches_oracle": 500, "assert_different": 500, "eq_variant_one_element": 100,
-            "eq_variant_shape_only": 100, "eq_variant_identical": 100, "real_state_batches": len(E.ENVS), "contract:tree_slice.post": 500}
+            "eq_variant_shape_only": 100, "eq_variant_identical": 100, "real_state_batches": len(E.ENVS), "contract:tree_slice.post": 500,
+            "stack_shared_leaf_objects": 100, "eq_variant_identical_other_key_order": 40}
     for k, n in need.items():
         if counters.get(k, 0) < n:
             missed.append(f"clause {k} evaluated {counters.get(k, 0)} < {n} times")
